@@ -27,9 +27,10 @@ VARIABLES l, verdict,
           bgprio,   \* priority of background learning operations
           gone,     \* actors that were cancelled
           nonconf,  \* number of sections whose structure the model could not explain
+          stats,    \* how often the interesting predicates were exercised (vacuity report)
           clock
 
-tvars == <<l, verdict, S, cfg, calls, stm, acc, requeue, route, lrnOf, sels, lrns, nsel, selOf, bgprio, gone, nonconf, clock>>
+tvars == <<l, verdict, S, cfg, calls, stm, acc, requeue, route, lrnOf, sels, lrns, nsel, selOf, bgprio, gone, nonconf, stats, clock>>
 
 Line == TraceLog[l]
 IsEvent(e) == l <= Len(TraceLog) /\ Line.ev = e /\ l' = l + 1
@@ -54,6 +55,8 @@ TInit ==
   /\ l = 1 /\ verdict = "ok" /\ S = EmptySnap /\ cfg = NoCfg /\ calls = EmptyFn /\ stm = EmptyFn
   /\ acc = EmptyFn /\ requeue = EmptyFn /\ route = EmptyFn /\ lrnOf = EmptyFn /\ sels = EmptyFn
   /\ lrns = EmptyFn /\ nsel = 0 /\ selOf = EmptyFn /\ bgprio = 0 /\ gone = {} /\ nonconf = 0 /\ clock = 0
+  /\ stats = [sections |-> 0, picks |-> 0, handoffs |-> 0, merged |-> 0, requeued |-> 0, background |-> 0,
+              completed_by_worker |-> 0, completed_by_scheduler |-> 0, cleanups |-> 0, quiescent |-> 0, finals |-> 0]
 
 Keep(vs) == UNCHANGED vs
 
@@ -61,37 +64,37 @@ TReset ==
   /\ IsEvent("reset")
   /\ verdict' = "ok" /\ S' = EmptySnap /\ cfg' = NoCfg /\ calls' = EmptyFn /\ stm' = EmptyFn
   /\ acc' = EmptyFn /\ requeue' = EmptyFn /\ route' = EmptyFn /\ lrnOf' = EmptyFn /\ sels' = EmptyFn
-  /\ lrns' = EmptyFn /\ nsel' = 0 /\ selOf' = EmptyFn /\ bgprio' = 0 /\ gone' = {} /\ clock' = 0 /\ UNCHANGED nonconf
+  /\ lrns' = EmptyFn /\ nsel' = 0 /\ selOf' = EmptyFn /\ bgprio' = 0 /\ gone' = {} /\ clock' = 0 /\ UNCHANGED <<nonconf, stats>>
 
 TConfig ==
   /\ IsEvent("config")
   /\ cfg' = [update |-> Line.update, no_waiter |-> Line.no_waiter, queue |-> Line.queue, busy |-> Line.busy,
              idle |-> Line.idle, retry |-> Line.retry, worker |-> Line.worker]
   /\ verdict' = "ok"
-  /\ UNCHANGED <<S, calls, stm, acc, requeue, route, lrnOf, sels, lrns, nsel, selOf, bgprio, gone, nonconf, clock>>
+  /\ UNCHANGED <<S, calls, stm, acc, requeue, route, lrnOf, sels, lrns, nsel, selOf, bgprio, gone, nonconf, stats, clock>>
 
 TPredeclare ==
   /\ IsEvent("predeclare")
   /\ bgprio' = Line.bg_prio
   /\ verdict' = "ok"
-  /\ UNCHANGED <<S, cfg, calls, stm, acc, requeue, route, lrnOf, sels, lrns, nsel, selOf, gone, nonconf, clock>>
+  /\ UNCHANGED <<S, cfg, calls, stm, acc, requeue, route, lrnOf, sels, lrns, nsel, selOf, gone, nonconf, stats, clock>>
 
 TNoop ==
   /\ (IsEvent("phase") \/ IsEvent("fire"))
   /\ verdict' = "ok"
-  /\ UNCHANGED <<S, cfg, calls, stm, acc, requeue, route, lrnOf, sels, lrns, nsel, selOf, bgprio, gone, nonconf, clock>>
+  /\ UNCHANGED <<S, cfg, calls, stm, acc, requeue, route, lrnOf, sels, lrns, nsel, selOf, bgprio, gone, nonconf, stats, clock>>
 
 TAdvance ==
   /\ IsEvent("advance")
   /\ clock' = Line.clock
   /\ verdict' = "ok"
-  /\ UNCHANGED <<S, cfg, calls, stm, acc, requeue, route, lrnOf, sels, lrns, nsel, selOf, bgprio, gone, nonconf>>
+  /\ UNCHANGED <<S, cfg, calls, stm, acc, requeue, route, lrnOf, sels, lrns, nsel, selOf, bgprio, gone, nonconf, stats>>
 
 TCancel ==
   /\ IsEvent("cancel")
   /\ gone' = gone \cup {Line.actor}
   /\ verdict' = "ok"
-  /\ UNCHANGED <<S, cfg, calls, stm, acc, requeue, route, lrnOf, sels, lrns, nsel, selOf, bgprio, nonconf, clock>>
+  /\ UNCHANGED <<S, cfg, calls, stm, acc, requeue, route, lrnOf, sels, lrns, nsel, selOf, bgprio, nonconf, stats, clock>>
 
 IsStream(kind) == kind \in {"execute", "wait"}
 
@@ -102,7 +105,7 @@ TCall ==
   /\ nsel' = IF Line.kind = "execute" THEN nsel + 1 ELSE nsel
   /\ selOf' = IF Line.kind = "execute" THEN Upd(selOf, Line.actor, nsel + 1) ELSE selOf
   /\ verdict' = "ok"
-  /\ UNCHANGED <<S, cfg, acc, requeue, route, lrnOf, sels, lrns, bgprio, gone, nonconf, clock>>
+  /\ UNCHANGED <<S, cfg, acc, requeue, route, lrnOf, sels, lrns, bgprio, gone, nonconf, stats, clock>>
 
 -----------------------------------------------------------------------------
 (* Messages sent to clients (C02, C03).                                    *)
@@ -132,12 +135,12 @@ TSend ==
                  (prev.stage = "E" /\ Line.stage = "Q" /\ rqNow > st.rq), "C02:stage-went-backwards">>,
             <<(known /\ Line.done) => (Line.token = t.resp /\ Line.code = t.code), "C02:final-message-differs-from-task-result">>
           >>)
-  /\ UNCHANGED <<S, cfg, calls, acc, requeue, route, lrnOf, sels, lrns, nsel, selOf, bgprio, gone, nonconf, clock>>
+  /\ UNCHANGED <<S, cfg, calls, acc, requeue, route, lrnOf, sels, lrns, nsel, selOf, bgprio, gone, nonconf, stats, clock>>
 
 -----------------------------------------------------------------------------
 (* Call returns.                                                           *)
 
-WorkerIn(s, id) == {x \in Workers(s) : x[2].id = id}
+WorkerIn(s, id) == {x \in WorkersOf(s) : x[2].id = id}
 
 RetChecks ==
   LET a == Line.actor
@@ -177,7 +180,7 @@ RetChecks ==
 TRet ==
   /\ IsEvent("ret")
   /\ verdict' = FirstFail(RetChecks)
-  /\ UNCHANGED <<S, cfg, calls, stm, acc, requeue, route, lrnOf, sels, lrns, nsel, selOf, bgprio, gone, nonconf, clock>>
+  /\ UNCHANGED <<S, cfg, calls, stm, acc, requeue, route, lrnOf, sels, lrns, nsel, selOf, bgprio, gone, nonconf, stats, clock>>
 
 -----------------------------------------------------------------------------
 (* One critical section.                                                   *)
@@ -223,18 +226,18 @@ Call == IF Actor \in DOMAIN calls THEN calls[Actor] ELSE [kind |-> "driver", own
 Now2 == Post.now
 
 \* Cleanups that must have run at the start of this section.
-DueWorkers == {x \in Workers(S) : x[2].cleanup_at >= 0 /\ x[2].cleanup_at <= Now2}
+DueWorkers == {x \in WorkersOf(S) : x[2].cleanup_at >= 0 /\ x[2].cleanup_at <= Now2}
 DueOps == {o \in Ops(S) : o.cleanup_at >= 0 /\ o.cleanup_at <= Now2}
 DueQueues == {qi \in QIdx(S) : S.queues[qi].cleanup_at >= 0 /\ S.queues[qi].cleanup_at <= Now2}
 
 QueueKey(q) == <<q.prefix, q.platform, q.size_class>>
 QueueKeys(s) == {QueueKey(s.queues[qi]) : qi \in QIdx(s)}
-WorkerKeys(s) == {<<QueueKey(s.queues[x[1]]), x[2].id>> : x \in Workers(s)}
+WorkerKeys(s) == {<<QueueKey(s.queues[x[1]]), x[2].id>> : x \in WorkersOf(s)}
 
 \* A task that became COMPLETED in this section with a scheduler-made result.
 NewlyCompleted == {id \in Both(S, Post) : TaskOf(S, id).stage # "C" /\ TaskOf(Post, id).stage = "C"}
 
-OpsOfTaskDue(t) == \A n \in Range(t.ops) : HasOp(S, n) => OpOf(S, n) \in DueOps
+OpsOfTaskDue(t) == \A n \in Rng(t.ops) : HasOp(S, n) => OpOf(S, n) \in DueOps
 
 \* The completion reported by the calling worker is accepted in this
 \* section: it is the first section of the call, and the worker and its
@@ -256,9 +259,9 @@ QueueOfTaskDue(t) ==
   /\ LET qi == TaskQueueIdx(S, t) IN
        \/ qi \in DueQueues
        \/ /\ S.queues[qi].may_be_removed
-          /\ \A w \in Range(S.queues[qi].workers) : <<qi, w>> \in DueWorkers
+          /\ \A w \in Rng(S.queues[qi].workers) : <<qi, w>> \in DueWorkers
           /\ Len(S.queues[qi].workers) > 0
-          /\ Max({w.cleanup_at : w \in Range(S.queues[qi].workers)}) + cfg.queue <= Now2
+          /\ Max({w.cleanup_at : w \in Rng(S.queues[qi].workers)}) + cfg.queue <= Now2
 
 SchedulerMadeOK(id) ==
   LET t == TaskOf(S, id)
@@ -272,7 +275,7 @@ SchedulerMadeOK(id) ==
   \/ /\ p.code = 13                                  \* INTERNAL: retry limit
      /\ c.kind = "sync" /\ t.stage = "E" /\ t.worker = c.owner /\ t.retry >= cfg.retry
   \/ /\ c.kind = "kill" /\ p.code = c.code           \* operator
-     /\ c.op \in Range(t.ops)
+     /\ c.op \in Rng(t.ops)
   \/ /\ c.kind = "killqueue" /\ p.code = c.code
      /\ t.stage = "Q"
 
@@ -289,7 +292,7 @@ NewlyAssigned ==
 
 PostWorker(id) ==
   LET p == TaskOf(Post, id) IN
-    CHOOSE x \in Workers(Post) : x[2].id = p.worker /\ x[1] = p.worker_queue + 1
+    CHOOSE x \in WorkersOf(Post) : x[2].id = p.worker /\ x[1] = p.worker_queue + 1
 
 \* Longest registered prefix (of queues with the right platform) of an instance name.
 SplitOK(prefix, inst) ==
@@ -458,20 +461,20 @@ CommonChecks == <<
       "C05:task-assigned-to-drained-or-terminating-worker">>,
     <<\A id \in NewlyAssigned :
         LET p == TaskOf(Post, id) IN
-          \A n \in Range(p.ops) : OpOf(Post, n).queue = p.worker_queue,
+          \A n \in Rng(p.ops) : OpOf(Post, n).queue = p.worker_queue,
       "C05:task-assigned-to-worker-of-another-queue">>,
     \* time-outs: due things are gone, others stay
     <<\A x \in DueWorkers : <<QueueKey(S.queues[x[1]]), x[2].id>> \notin WorkerKeys(Post) \/
                              (Call.kind = "sync" /\ Call.owner = x[2].id), "C06:stale-worker-not-removed">>,
     <<\A x \in DueWorkers : (x[2].task # 0 /\ HasTask(Post, x[2].task)) =>
          TaskOf(Post, x[2].task).stage # "E" \/ TaskOf(Post, x[2].task).worker # x[2].id, "C06:task-of-vanished-worker-not-failed">>,
-    <<\A x \in Workers(S) : (x \notin DueWorkers /\ QueueKey(S.queues[x[1]]) \in QueueKeys(Post)) =>
+    <<\A x \in WorkersOf(S) : (x \notin DueWorkers /\ QueueKey(S.queues[x[1]]) \in QueueKeys(Post)) =>
          <<QueueKey(S.queues[x[1]]), x[2].id>> \in WorkerKeys(Post), "C06:worker-removed-before-its-timeout">>,
     <<\A o \in DueOps : ~HasOp(Post, o.name), "C06:abandoned-operation-not-removed">>,
     <<\A o \in Ops(S) : o \notin DueOps => HasOp(Post, o.name), "C06:operation-removed-before-its-timeout">>,
     <<\A qi \in DueQueues : QueueKey(S.queues[qi]) \notin QueueKeys(Post) \/
          (Call.kind = "sync" /\ QueueKey(S.queues[qi]) = <<Call.prefix, Call.platform, Call.size_class>>), "C06:queue-without-workers-not-removed">>,
-    <<\A qi \in QIdx(S) : (qi \notin DueQueues /\ ~(S.queues[qi].may_be_removed /\ \A w \in Range(S.queues[qi].workers) : <<qi, w>> \in DueWorkers)) =>
+    <<\A qi \in QIdx(S) : (qi \notin DueQueues /\ ~(S.queues[qi].may_be_removed /\ \A w \in Rng(S.queues[qi].workers) : <<qi, w>> \in DueWorkers)) =>
          QueueKey(S.queues[qi]) \in QueueKeys(Post), "C06:queue-removed-before-its-timeout">>,
     <<\A o \in Ops(Post) : (o.waiters = 0 /\ ~o.may_exist) => o.cleanup_at >= 0, "C06:operation-without-waiters-has-no-timeout">>,
     <<\A o \in Ops(Post) : (HasOp(S, o.name) /\ OpOf(S, o.name).cleanup_at < 0 /\ o.cleanup_at >= 0) => o.cleanup_at = Post.now + cfg.no_waiter,
@@ -479,11 +482,154 @@ CommonChecks == <<
     <<TRUE, "ok">>
   >>
 
+
+-----------------------------------------------------------------------------
+(* C04: reference model of the fair order (documented in                   *)
+(* bb_scheduler.proto and in the comments of the scheduler).  It is        *)
+(* evaluated on the state the scheduler chose from: the state at the end   *)
+(* of the section with the chosen task put back into its queue.            *)
+
+\* The task a Synchronize section took out of the queue for its own worker.
+Picked ==
+  {id \in NewlyAssigned : Call.kind = "sync" /\ TaskOf(Post, id).worker = Call.owner}
+PickTid == CHOOSE id \in Picked : TRUE
+PickQ == TaskOf(Post, PickTid).worker_queue + 1
+
+QOpsI == {o \in Ops(Post) : o.queue + 1 = PickQ /\ (TaskOf(Post, o.task).stage = "Q" \/ o.task = PickTid)}
+DirectI(p) == {o \in QOpsI : o.inv = p}
+UnderI(p) == {o \in QOpsI : PathPrefix(p, o.inv)}
+ChildKeysI(p) == {o.inv[Len(p) + 1] : o \in {o \in UnderI(p) : Len(o.inv) > Len(p)}}
+ExecWI(p) ==
+  {t.worker : t \in {t \in Tasks(Post) : t.stage = "E" /\ t.id # PickTid /\ t.worker_queue + 1 = PickQ /\
+                        \E n \in Rng(t.ops) : PathPrefix(p, OpOf(Post, n).inv)}}
+
+OpLess(o1, o2) ==
+  LET t1 == TaskOf(Post, o1.task)
+      t2 == TaskOf(Post, o2.task)
+  IN \/ o1.prio < o2.prio
+     \/ o1.prio = o2.prio /\ t1.exp_dur > t2.exp_dur
+     \/ o1.prio = o2.prio /\ t1.exp_dur = t2.exp_dur /\ t1.queued_at < t2.queued_at
+BestOps(p) == {o \in DirectI(p) : \A e \in DirectI(p) : ~OpLess(e, o)}
+
+InvIn(s, qkey, p) ==
+  {i \in UNION {Rng(s.queues[qi].invs) : qi \in {k \in QIdx(s) : QueueKey(s.queues[k]) = qkey}} : i.path = p}
+
+OnPickedPath(p) == \E n \in Rng(TaskOf(Post, PickTid).ops) : PathPrefix(p, OpOf(Post, n).inv)
+
+LastStartedI(p) ==
+  LET qkey == QueueKey(Post.queues[PickQ])
+      src == IF OnPickedPath(p) THEN S ELSE Post
+      found == InvIn(src, qkey, p)
+  IN IF found = {} THEN Post.now ELSE (CHOOSE i \in found : TRUE).last_started
+
+Pow2(k) == 2 ^ k
+
+\* Priority of the operation an invocation would run next; scores are
+\* compared exactly, which is possible when priorities differ by multiples
+\* of 100 (other cases are not decided).
+RECURSIVE FirstPrioI(_)
+ScoreLt(e1, p1, e2, p2) ==
+  IF p1 = p2 THEN e1 < e2
+  ELSE IF p1 < p2 THEN e1 < e2 * Pow2((p2 - p1) \div 100)
+  ELSE e1 * Pow2((p1 - p2) \div 100) < e2
+ScoreEq(e1, p1, e2, p2) ==
+  IF p1 = p2 THEN e1 = e2
+  ELSE IF p1 < p2 THEN e1 = e2 * Pow2((p2 - p1) \div 100)
+  ELSE e1 * Pow2((p1 - p2) \div 100) = e2
+PrefI(a, b, tb) ==
+  LET ea == Cardinality(ExecWI(a)) + 1
+      eb == Cardinality(ExecWI(b)) + 1
+      pa == FirstPrioI(a)
+      pb == FirstPrioI(b)
+  IN ScoreLt(ea, pa, eb, pb) \/ (ScoreEq(ea, pa, eb, pb) /\ tb)
+BestChildren(p) ==
+  LET C == ChildKeysI(p) IN
+    {c \in C : \A e \in C : ~PrefI(Append(p, e), Append(p, c), LastStartedI(Append(p, e)) < LastStartedI(Append(p, c)))}
+FirstPrioI(p) ==
+  IF DirectI(p) # {} THEN Min({o.prio : o \in DirectI(p)})
+  ELSE IF ChildKeysI(p) = {} THEN 0
+  ELSE FirstPrioI(Append(p, CHOOSE c \in BestChildren(p) : TRUE))
+
+\* Situations the exact reference cannot decide: priorities that are not
+\* multiples of 100, and scores of invocations with different priorities
+\* that are exactly equal (the implementation compares them in floating
+\* point).
+AllPaths == UNION {{SubSeq(o.inv, 1, k) : k \in 0 .. Len(o.inv)} : o \in QOpsI}
+Undecidable ==
+  \/ \E o \in QOpsI : o.prio % 100 # 0
+  \/ \E p \in AllPaths : \E a, b \in ChildKeysI(p) :
+       LET pa == FirstPrioI(Append(p, a))
+           pb == FirstPrioI(Append(p, b))
+       IN pa # pb /\ ScoreEq(Cardinality(ExecWI(Append(p, a))) + 1, pa, Cardinality(ExecWI(Append(p, b))) + 1, pb)
+
+RECURSIVE AllowedAt(_, _, _, _)
+AllowedAt(p, keys, lims, sts) ==
+  IF DirectI(p) # {} THEN {o.task : o \in BestOps(p)}
+  ELSE UNION {
+         LET sticky == Len(keys) > 0 /\ Len(lims) > 0 /\ keys[1] \in ChildKeysI(p)
+             chosen == IF sticky /\ PrefI(Append(p, keys[1]), Append(p, b), sts[1] >= 0 /\ sts[1] + lims[1] > Post.now)
+                       THEN keys[1] ELSE b
+             cont == Len(keys) > 0 /\ Len(lims) > 0 /\ chosen = keys[1]
+         IN AllowedAt(Append(p, chosen),
+                      IF cont THEN Tail(keys) ELSE <<>>,
+                      IF cont THEN Tail(lims) ELSE <<>>,
+                      IF cont THEN Tail(sts) ELSE <<>>)
+         : b \in BestChildren(p)}
+
+CommonPrefix(paths) ==
+  LET one == CHOOSE q \in paths : TRUE
+      ks == {k \in 0 .. Len(one) : \A q \in paths : Len(q) >= k /\ SubSeq(q, 1, k) = SubSeq(one, 1, k)}
+  IN SubSeq(one, 1, Max(ks))
+
+\* The invocation the worker last served, as of the moment it chooses.
+PickLast ==
+  LET ws == WorkerIn(S, Call.owner)
+      x == CHOOSE x \in ws : TRUE
+  IN IF ws = {} THEN <<>>
+     ELSE IF x[2].task # 0 /\ HasTask(S, x[2].task)
+          THEN IF Accepted THEN CommonPrefix({OpOf(S, n).inv : n \in Rng(TaskOf(S, x[2].task).ops)}) ELSE <<>>
+          ELSE IF x[2].has_last THEN x[2].last ELSE <<>>
+PickStick ==
+  LET ws == WorkerIn(S, Call.owner) IN
+    IF ws = {} THEN [k \in 1 .. Len(Post.queues[PickQ].limits) |-> -1] ELSE (CHOOSE x \in ws : TRUE)[2].stick
+
+Simple == DueWorkers = {} /\ DueOps = {} /\ DueQueues = {}
+
+PickChecks ==
+  IF Picked = {} \/ ~Simple \/ Cardinality(NewlyAssigned) # 1 THEN <<>>
+  ELSE IF Undecidable THEN <<>>
+  ELSE <<
+    <<PickTid \in AllowedAt(<<>>, PickLast, Post.queues[PickQ].limits, PickStick), "C04:worker-did-not-receive-the-prescribed-task">>
+  >>
+
+\* Direct hand-off of a new task to a worker that is blocked waiting.
+HandedOff == {id \in NewlyAssigned : ~(Call.kind = "sync" /\ TaskOf(Post, id).worker = Call.owner)}
+
+HandOffOK(id) ==
+  LET p == TaskOf(Post, id)
+      qkey == QueueKey(Post.queues[p.worker_queue + 1])
+      pre == {x \in WorkersOf(S) : QueueKey(S.queues[x[1]]) = qkey}
+      chosen == {x \in pre : x[2].id = p.worker}
+      waiting == {x \in pre : x[2].parked /\ ~x[2].drained}
+      path == OpOf(Post, p.ops[1]).inv
+      A == CommonPrefix({path} \cup {SubSeq(path, 1, Max({k \in 0 .. Len(path) : \E y \in waiting : PathPrefix(SubSeq(path, 1, k), y[2].last)}))})
+  IN /\ chosen # {} /\ chosen \subseteq waiting
+     /\ Len(p.ops) = 1 =>
+          \A x \in chosen :
+            /\ PathPrefix(A, x[2].last)
+            /\ (\E y \in waiting : y[2].last = A) => x[2].last = A
+
+HandOffChecks ==
+  IF ~Simple THEN <<>>
+  ELSE <<
+    <<\A id \in HandedOff : HandOffOK(id), "C04:task-not-handed-to-the-most-closely-related-waiting-worker">>
+  >>
+
 SecChecks ==
   CommonChecks
   \o (IF Call.kind = "execute" /\ Line.first THEN ExecChecks ELSE <<>>)
   \o (IF Call.kind = "sync" THEN SyncChecks ELSE <<>>)
-  \o RetryChecks \o BgChecks \o LearnerChecks
+  \o RetryChecks \o BgChecks \o LearnerChecks \o PickChecks \o HandOffChecks
 
 TSec ==
   /\ IsEvent("sec")
@@ -495,6 +641,16 @@ TSec ==
   /\ lrns' = NewLrns
   /\ verdict' = FirstFail(SecChecks)
   /\ nonconf' = IF NC_Structure(Post) THEN nonconf ELSE nonconf + 1
+  /\ stats' = [stats EXCEPT
+        !.sections = @ + 1,
+        !.picks = @ + (IF PickChecks # <<>> THEN 1 ELSE 0),
+        !.handoffs = @ + (IF Simple THEN Cardinality(HandedOff) ELSE 0),
+        !.merged = @ + (IF Call.kind = "execute" /\ Line.first /\ \E i \in DOMAIN Isc : Isc[i].k = "sel_abandoned" THEN 1 ELSE 0),
+        !.requeued = @ + Cardinality({id \in Both(S, Post) : TaskOf(S, id).stage = "E" /\ TaskOf(Post, id).stage = "Q"}),
+        !.background = @ + Cardinality({id \in NewTasks : TaskOf(Post, id).dnc /\ Call.kind = "sync"}),
+        !.completed_by_worker = @ + Cardinality({id \in NewlyCompleted : TaskOf(Post, id).resp # ""}),
+        !.completed_by_scheduler = @ + Cardinality({id \in NewlyCompleted : TaskOf(Post, id).resp = ""}),
+        !.cleanups = @ + Cardinality(DueWorkers) + Cardinality(DueOps) + Cardinality(DueQueues)]
   /\ UNCHANGED <<cfg, calls, stm, route, nsel, selOf, bgprio, gone, clock>>
 
 -----------------------------------------------------------------------------
@@ -513,7 +669,7 @@ ParkedChecks ==
           ws # {} /\ \A x \in ws : x[2].task = 0 /\ (x[2].parked \/ x[2].drained),
       "C06:worker-not-woken">>,
     <<\A a \in parked : (a \in DOMAIN calls /\ calls[a].kind = "terminate") =>
-        \E x \in Workers(S) : x[2].task # 0 /\ x[2].terminating,
+        \E x \in WorkersOf(S) : x[2].task # 0 /\ x[2].terminating,
       "C06:terminate-workers-not-woken">>,
     <<\A a \in parked : a \in DOMAIN calls /\ calls[a].kind \in {"execute", "wait", "sync", "terminate"},
       "C06:non-blocking-call-blocked">>
@@ -522,6 +678,7 @@ ParkedChecks ==
 TQuiescent ==
   /\ IsEvent("quiescent")
   /\ verdict' = FirstFail(ParkedChecks)
+  /\ stats' = [stats EXCEPT !.quiescent = @ + 1]
   /\ UNCHANGED <<S, cfg, calls, stm, acc, requeue, route, lrnOf, sels, lrns, nsel, selOf, bgprio, gone, nonconf, clock>>
 
 TFinal ==
@@ -530,18 +687,26 @@ TFinal ==
        <<Line.actors_left = 0, "C06:blocked-call-never-returned">>,
        <<Line.lock_free, "C14:scheduler-lock-left-behind">>,
        <<C06_Empty(S), "C06:state-retained-after-everybody-left">>,
-       <<\A x \in DOMAIN lrns : lrns[x] = 1, "C07:learner-without-terminal-call">>,
+       <<\A x \in DOMAIN lrns : lrns[x] = 1 \/ (lrns[x] = 0 /\ \E id \in TaskIds(S) : Live(TaskOf(S, id)) /\ Get(lrnOf, id, 0) = x),
+         "C07:learner-without-terminal-call">>,
        <<\A s \in DOMAIN sels : sels[s] = 1, "C07:selector-without-call">>
      >>)
+  /\ stats' = [stats EXCEPT !.finals = @ + 1]
   /\ UNCHANGED <<S, cfg, calls, stm, acc, requeue, route, lrnOf, sels, lrns, nsel, selOf, bgprio, gone, nonconf, clock>>
 
-TNext == TReset \/ TConfig \/ TPredeclare \/ TNoop \/ TAdvance \/ TCancel \/ TCall \/ TSend \/ TRet \/ TSec \/ TQuiescent \/ TFinal
+\* The real code panicked.
+TPanic ==
+  /\ IsEvent("panic")
+  /\ verdict' = "PANIC:scheduler-panicked"
+  /\ UNCHANGED <<S, cfg, calls, stm, acc, requeue, route, lrnOf, sels, lrns, nsel, selOf, bgprio, gone, nonconf, stats, clock>>
+
+TNext == TPanic \/ TReset \/ TConfig \/ TPredeclare \/ TNoop \/ TAdvance \/ TCancel \/ TCall \/ TSend \/ TRet \/ TSec \/ TQuiescent \/ TFinal
 
 TraceSpec == TInit /\ [][TNext]_tvars
 
 VerdictOK == verdict = "ok"
 
-NonconfReport == (l <= Len(TraceLog)) \/ PrintT(<<"NONCONF", nonconf>>)
+NonconfReport == (l <= Len(TraceLog)) \/ (PrintT(<<"NONCONF", nonconf>>) /\ PrintT(<<"STATS", ToJson(stats)>>))
 
 TraceAccepted ==
   /\ TLCGet("stats").diameter - 1 = Len(TraceLog)
